@@ -196,6 +196,11 @@ class Session:
         if name == 'tick':
             env.CLOCK.advance(op.get('seconds', 1))
             return None
+        if name == 'clock_tick':
+            # from here on every reading of the clock advances it: records made by one call get
+            # different creation / modification / attribute / access times
+            env.CLOCK.tick = float(op.get('seconds', 1))
+            return None
         # queries (no model effect)
         if name == 'q_get_record':
             rec = iso.get_record(**{op['key']: op['path']})
